@@ -23,7 +23,7 @@ def gen_prog(rng: random.Random, *, crash: float = 0.08) -> dict[str, Any]:
                 n_late += 1
                 a = rng.random()
                 action: Any = "cancel" if a < 0.5 else "none" if a < 0.65 else \
-                    {"raises": rng.random() < 0.3, "async": rng.random() < 0.5, "kind": rng.choice(["fn", "method", "obj"])}
+                    {"raises": rng.random() < 0.3, "async": rng.random() < 0.5, "kind": rng.choice(["fn", "method", "obj", "partialobj"])}
                 beh: dict[str, Any] = {"ends": rng.choice([0, 1, 3]), "exc": None} if action == "none" or rng.random() < 0.3 \
                     else {"until": rng.choice([0, 1, 2])}
                 prog[-1]["async"] = True
@@ -43,7 +43,7 @@ def gen_prog(rng: random.Random, *, crash: float = 0.08) -> dict[str, Any]:
             else:
                 # "kind": a plain function / a functools.partial / a bound method / a callable object (possibly falsy)
                 action = {"raises": rng.random() < 0.3, "async": rng.random() < 0.5,
-                          "kind": rng.choice(["fn", "fn", "partial", "method", "obj", "falsyobj"])}
+                          "kind": rng.choice(["fn", "fn", "partial", "method", "obj", "falsyobj", "partialobj"])}
             if action == "none":
                 beh = {"ends": rng.choice([0, 1, 3, 6, 9]), "exc": None}
             elif rng.random() < 0.3:
